@@ -34,6 +34,7 @@ type PropCfg struct {
 	Evolve    bool           // build old/new schema pairs
 	NoProgs   bool           // the simulation needs no generated programs (iohelp only)
 	TextOnly  bool           // programs are used as schema text only; nothing is generated or compiled
+	CLI       bool           // build the two command-line tools from the instrumented copy
 	RepoInstr map[string]instrument.Options
 	Params    map[string]map[string]int
 	Seeds     map[string][]uint64
